@@ -244,9 +244,15 @@ def main(run):
     def build(w, rows, sizes, cds=None):
         F = fitcls(w)
         pop = []
+        reassign = rng.random() < 0.3
+        run.extra_cov["populations_with_reassigned_fitness_objects"] = run.extra_cov.get("populations_with_reassigned_fitness_objects", 0) + reassign
         for i, (vals, sz) in enumerate(zip(rows, sizes)):
             x = Ind([7] * sz)
             setattr(x, ATTR[0], F())
+            if reassign:
+                # the fitness object was evaluated before (other values, read once) and is assigned again while still valid
+                fit(x).values = tuple(float(v) + 3.0 * ((i % 3) - 1) + 0.5 for v in vals)
+                _ = fit(x).values, fit(x).wvalues, fit(x).valid
             fit(x).values = tuple(float(v) for v in vals)
             if cds is not None:
                 fit(x).crowding_dist = cds[i]
